@@ -272,6 +272,13 @@ example : castFits ⟨.fixedDim 2, .bounded 8, false⟩ [2,3] = true ∧ castFit
 example : (castInto ⟨.dyn, .dyn, true⟩ (convTo .i8) (fill (resize ⟨.dyn, .dyn, true⟩ (init ⟨.dyn, .dyn, true⟩) [2,2]).1 126)).map
     (·.data) = some [126, 127, -128, -127] := by decide
 example : kindCfg (.nd .l .f) [2,3] = ⟨.clipped [2,3], .fixed 6, false⟩ ∧ kindCfg .hybrid [2,3] = ⟨.fixedDim 2, .bounded 6, false⟩ := by decide
+-- hypotheses of cast_kind_fits / cast_kind_preserves, castFits_self / cast_dtype_preserves, reachable_inv_with_casts
+example : ([2,1,3] : List Nat) ≠ [] ∧ 0 < prod [2,1,3] := by decide
+example : (castInto (kindCfg (.nd .h .h) [2,1,3]) id (fill (init ⟨.const [2,1,3], .fixed 6, true⟩) 10)).map (fun r => (r.shape, r.strides, r.data)) =
+    some ([2,1,3], [3,3,1], [10,12,14,11,13,15]) := by decide
+example : ∀ ms, (⟨.dyn, .fixed 6, true⟩ : Cfg).sk ≠ .clipped ms := by intro ms h; cases h
+example : CfgOk ⟨.fixedDim 2, .bounded 8, true⟩ ∧ DefaultOk ⟨.fixedDim 2, .bounded 8, true⟩ ∧ ¬ DefaultOk ⟨.clipped [2,3], .fixed 6, true⟩ := by
+  refine ⟨by simp [CfgOk], by simp [DefaultOk], by decide⟩
 example : (xrun (⟨.dyn, .dyn, false⟩, init ⟨.dyn, .dyn, false⟩)
     [.base (.resize [2,2]), .base (.fill 1), .cast ⟨.fixedDim 2, .bounded 8, true⟩, .dcast .u8, .base (.write [1,0] 7)]).map
     (fun x => (x.2.shape, x.2.strides, x.2.data)) = some ([2,2], [1,2], [1,7,2,4]) := by decide
